@@ -4,7 +4,6 @@ import numpy as np
 
 from common import R, Rvec, Cx, fl, cfl, ModelError
 
-from common import wiring_pre_build as pre_build  # noqa: E402,F401
 
 LEAN_MODULES = ["PyomaVerif.Props.C06", "PyomaVerif.Mutants.C06", "PyomaVerif.Props.WiringMpe", "PyomaVerif.Props.C06C13", "PyomaVerif.Props.C06Faithful", "PyomaVerif.Props.WiringStore", "PyomaVerif.Props.WiringClass", "PyomaVerif.Props.WiringCalls", "PyomaVerif.Props.C06Band", "PyomaVerif.Mutants.C06Band", "PyomaVerif.Props.C07Rect"]
 THEOREMS = [
